@@ -124,6 +124,12 @@ service Svc extends Base {
                  shape="fields-named-like-locals"))
     D.append(doc("special_methods", "struct R { 1: i32 a }\nservice S { R new(1: R default), void default(1: i32 new), R encode(1: R decode), void size() }\n", shape="methods-named-like-trait-items"))
     D.append(doc("typedef_message", "typedef i32 Message\ntypedef string Default\nstruct H { 1: Message m, 2: Default d }\n", shape="typedefs-named-like-traits"))
+    # derive(Hash, Eq, Ord) over cycles that close through an Arc wrapper or a btree container: the cycle partner is decided
+    # "later" while the first struct turns out not to derive (it holds a double); the later decision must follow
+    D.append(doc("derive_cycle_arc", 'struct A { 1: B b, 2: C c }\nstruct B { 1: optional A a (pilota.rust_wrapper_arc="true") }\nstruct C { 1: double d }\n',
+                 shape="derive-cycle-through-arc"))
+    D.append(doc("derive_cycle_btree", 'struct A { 1: B b, 2: C c }\nstruct B { 1: map<i32, A> m (pilota.rust_type = "btree") }\nstruct C { 1: double d }\n',
+                 shape="derive-cycle-through-btree"))
     D.append(doc("q_type_named_t", "struct T { 1: i32 a }\nstruct H { 1: T t, 2: list<T> ts }\n", shape="type-named-T", quarantine="C14-type-named-like-generic-parameter"))
     D.append(doc("q_empty_enum", "enum Err {\n}\nstruct Q { 1: Err e }\n", shape="empty-enum", quarantine=None))
     D[-1]["outside_grammar"] = True   # G_thrift requires at least one enum value
